@@ -23,18 +23,19 @@ import (
 // ---- C17: Concurrent Store use keeps Head monotone and readers never see torn state ----
 
 type c17P struct {
-	Cfg       Cfg       `json:"cfg"`
-	Base      int       `json:"base"`    // 1..Base stored and synced before the concurrent phase
-	N         int       `json:"n"`       // highest height
-	Writers   [][][]int `json:"writers"` // per writer: list of batches (heights)
-	Readers   int       `json:"readers"`
-	Iter      int       `json:"iter"`        // reads per reader
-	DelTo     int       `json:"del_to"`      // >0: a deleter runs DeleteRange(Tail, DelTo) (DelTo <= Base)
-	DsYield   uint64    `json:"ds_yield"`    // !=0: PRNG virtual delays inside datastore operations
-	AtHead    bool      `json:"at_head"`     // the deleter deletes everything below the head it observes (to == current Head)
-	SlowPtrUs int       `json:"slow_ptr_us"` // >0: datastore writes of the head/tail pointer keys take this long (virtual)
-	Sched     uint64    `json:"sched"`       // PRNG seed of the yield-point delays (0 = none)
-	PaceUs    int       `json:"pace_us"`     // max virtual pause between steps of a client
+	Cfg           Cfg       `json:"cfg"`
+	Base          int       `json:"base"`    // 1..Base stored and synced before the concurrent phase
+	N             int       `json:"n"`       // highest height
+	Writers       [][][]int `json:"writers"` // per writer: list of batches (heights)
+	Readers       int       `json:"readers"`
+	Iter          int       `json:"iter"`            // reads per reader
+	DelTo         int       `json:"del_to"`          // >0: a deleter runs DeleteRange(Tail, DelTo) (DelTo <= Base)
+	DsYield       uint64    `json:"ds_yield"`        // !=0: PRNG virtual delays inside datastore operations
+	AtHead        bool      `json:"at_head"`         // the deleter deletes everything below the head it observes (to == current Head)
+	SlowPtrUs     int       `json:"slow_ptr_us"`     // >0: datastore writes of the head/tail pointer keys take this long (virtual)
+	WriterDelayUs int       `json:"writer_delay_us"` // writers start this late (virtual)
+	Sched         uint64    `json:"sched"`           // PRNG seed of the yield-point delays (0 = none)
+	PaceUs        int       `json:"pace_us"`         // max virtual pause between steps of a client
 }
 
 type hop struct {
@@ -109,10 +110,14 @@ func TestC17(t *testing.T) {
 	}
 	// targeted: a tail-side deletion reaching exactly up to the head it observes, with slow pointer writes,
 	// while a writer keeps appending single headers and readers sample Head() densely
-	for i := 0; i < r.N(60, 600); i++ {
+	for i := 0; i < r.N(90, 900); i++ {
 		base := 6 + rng.Intn(6)
-		p := c17P{Cfg: Cfg{SC: 64, IC: 64, WB: []int{1, 2, 4, 64}[i%4], Flavour: []string{"plain", "ctx"}[(i/4)%2]}, Base: base, N: base + 6 + rng.Intn(5),
-			Readers: 3, Iter: 14, PaceUs: []int{150, 400, 900}[rng.Intn(3)], DelTo: base, AtHead: true, SlowPtrUs: []int{800, 2500, 6000}[rng.Intn(3)], Sched: uint64(rng.Intn(2) * (1 + rng.Intn(1<<20)))}
+		S := []int{800, 2500, 6000}[i%3]
+		p := c17P{Cfg: Cfg{SC: 64, IC: 64, WB: []int{1, 2, 4, 64}[i%4], Flavour: []string{"plain", "ctx"}[(i/4)%2]}, Base: base, N: base + 2 + rng.Intn(3),
+			Readers: 3, Iter: 40, PaceUs: S / 3, DelTo: base, AtHead: true, SlowPtrUs: S,
+			// the deleter spends 2S writing the tail pointer, then 2S writing the head pointer (if it does): the
+			// writer's first append lands inside or around that second window
+			WriterDelayUs: []int{-1, -1, 3 * S, 5 * S / 2, S}[(i/3)%5], DsYield: uint64(1 + rng.Intn(1<<20))}
 		var bs [][]int
 		for h := base + 1; h <= p.N; h++ {
 			bs = append(bs, []int{h})
@@ -181,9 +186,14 @@ func c17Run(c *mon.Case, p c17P) {
 		}
 		_ = e.sync()
 		defer ctl.Install()()
+		ptrWrite := make(chan struct{})
+		var ptrOnce sync.Once
 		if p.DsYield != 0 || p.SlowPtrUs > 0 {
 			var n atomic.Uint64
 			e.d.Yield = func(op, key string) {
+				if op == "put" && strings.HasSuffix(key, "/head") {
+					ptrOnce.Do(func() { close(ptrWrite) })
+				}
 				if p.SlowPtrUs > 0 && (op == "put" || op == "put-return") && (strings.HasSuffix(key, "/head") || strings.HasSuffix(key, "/tail")) {
 					time.Sleep(time.Duration(p.SlowPtrUs) * time.Microsecond)
 					return
@@ -223,6 +233,11 @@ func c17Run(c *mon.Case, p c17P) {
 			go func() {
 				defer wg.Done()
 				seed := uint64(w+1) * 7919
+				if p.WriterDelayUs > 0 {
+					time.Sleep(time.Duration(p.WriterDelayUs) * time.Microsecond)
+				} else if p.WriterDelayUs < 0 {
+					<-ptrWrite // start appending exactly while the deleter writes a pointer directly (or once it is done)
+				}
 				for _, b := range batches {
 					pace(&seed)
 					hs := make([]uint64, len(b))
@@ -338,6 +353,7 @@ func c17Run(c *mon.Case, p c17P) {
 				delErr = e.st.DeleteRange(ctx, 1, delTo)
 				cancel()
 				delDone = true
+				ptrOnce.Do(func() { close(ptrWrite) })
 			}()
 		}
 		wg.Wait()
